@@ -89,7 +89,7 @@ CLAIMED.update({
  "C20": ("all-paths status/ordering rules on SnapshotHandler; capture-loop growth rule; per-request options; no package-level state",
          "DESIGN.md §3.11 WEB, §4 C20",
          "Narrow claim: method test first, exactly one 4xx reply and return for every invalid parameter, 500 for a failed snapshot, the page only on the error-free path; the capture buffer strictly grows to min(2n, maxmem) until the dump fits; options are created per request and no package-level state is written, so concurrent requests cannot influence each other.",
-         "Not decided: anything about the live runtime, goroutine churn or request interleavings (no static argument reaches them). RX inclusion of runtime.Stack's line shapes is added when the RX engine is present."),
+         "Not decided: anything about the live runtime, goroutine churn or request interleavings (no static argument reaches them). What runtime.Stack prints is covered through the printer model (RX rules), not through the live runtime."),
  "C16": ("taint (non-interference) analysis of palette strings over package internal; width-agreement and per-element writer path rules",
          "DESIGN.md §3.11 NI, §4 C16",
          "Colour strings are only inserted (concatenation, %s operands, writers), never compared, measured, indexed or converted; the measured widths are the lengths of exactly the two padded columns; both console writers test the very header they print with filter and match of opposite polarity (helper predicates are inlined) and write header then stack for every admitted element.",
@@ -99,6 +99,22 @@ CLAIMED.update({
          "Every value a template function can return as trusted URL is empty, constant, scheme-fixed or query-escaped; trusted-markup conversions take constants or HTMLEscapeString results only; the FuncMap holds exactly the vetted producers; every template action sits in element content or a quoted attribute, URL attributes are whole-value or follow a constant scheme, no escaper-changing function is used; rows/headings are emitted unconditionally; the analysed constant is the shipped template; helper functions cannot panic on bounds.",
          "Trusted base: html/template contextual escaping incl. URL normalisation of template.URL inside quoted attributes (an unescaped path segment after a fixed https://host/ prefix is therefore not a violation)."),
 })
+
+# additions made after the first version of each check (rules added in later rounds)
+def _ext(pid, tech=None, text=None, note=None):
+    t, r, x, n = CLAIMED[pid]
+    CLAIMED[pid] = (t + ("; " + tech if tech else ""), r, x + (" " + text if text else ""), n + (" " + note if note else ""))
+_ext("C01", "regular-language inclusion of a printer model in the parser patterns (regexp/syntax product); all-paths rules on parseFunc/parseFile/Call.init/Func.Init/parseArgs/atou; reader byte-delivery rules",
+     "Every line shape of the runtime printer model, every wait reason of the installed runtimes and both frames-elided markers are accepted by the parser (inclusion, with witness on failure); the small parsers assign each field from the stated group; nothing read is lost on the way to the scanner.")
+_ext("C03", "lower-bound interval analysis with coinductive loop hypotheses; panic and loop tables with re-verified reasons; atou digit bound",
+     "Every computed slice bound/index in scope is non-negative, constant tables are indexed within bounds, every explicit panic and every loop is classified.")
+_ext("C09", "retry-count and error-provenance rules")
+_ext("C10", "all-elements rule on location update")
+_ext("C12", "pointwise-lifting and key rules of similarity (EQ-lift/EQ-key)")
+_ext("C16", "header-guard rule")
+_ext("C18", "order and probe rules on root discovery")
+_ext("C20", "printer-model inclusion (RX), bounds/panic/loop rules on everything the handler reaches, similarity/aggregation rules reachable from the handler",
+     "Everything the handler calls is covered by the crash/termination rules and the similarity rules of C03/C05; the dump format written by runtime.Stack is covered by the printer-model inclusion.")
 for k in list(CLAIMED): NA.pop(k, None)
 try:
     exec(open(os.path.join(V, "tools", "manifest_table.py")).read())
